@@ -4,6 +4,9 @@ mod gen;
 mod lexspec;
 mod pp;
 mod p01;
+mod p02;
+mod p04;
+mod p07;
 mod p03;
 mod p10;
 mod p23;
@@ -38,7 +41,10 @@ fn main() {
     let mut ctx = Ctx::new(&prop, &tier, seed, out);
     match prop.as_str() {
         "C01" => p01::run(&mut ctx),
+        "C02" => p02::run(&mut ctx),
         "C03" => p03::run(&mut ctx),
+        "C04" => p04::run(&mut ctx),
+        "C07" => p07::run(&mut ctx),
         "C10" => p10::run(&mut ctx),
         "C23" => p23::run(&mut ctx),
         "C25" => p25::run(&mut ctx),
